@@ -18,6 +18,14 @@ pub struct Case {
     /// wrap the log once)
     #[serde(default)]
     pub explore_from_op: usize,
+    /// at most this many distinct fault states are opened per history (all states between calls plus an
+    /// even stride of the states inside calls)
+    #[serde(default = "no_cap")]
+    pub cap: usize,
+}
+
+fn no_cap() -> usize {
+    1 << 30
 }
 
 fn choices(ps: &PowerState, seed: u64) -> Vec<(FaultChoice, &'static str)> {
@@ -59,7 +67,10 @@ pub fn check_all_points(c: &Case) -> CheckResult {
 }
 
 fn check_with(c: &Case, all_points: bool) -> CheckResult {
+    let t0 = std::time::Instant::now();
     let rec = crash::record(&c.hist, "C03")?;
+    let t_rec = t0.elapsed();
+    let (mut t_choices, mut t_apl, mut t_obs) = (std::time::Duration::ZERO, std::time::Duration::ZERO, std::time::Duration::ZERO);
     if rec.n_ops == 0 {
         return Ok(CaseInfo::trivial().class("recording_empty"));
     }
@@ -72,6 +83,19 @@ fn check_with(c: &Case, all_points: bool) -> CheckResult {
     let mut classes: HashSet<&'static str> = HashSet::new();
     let n = rec.recs.len();
     let mut growth_in_call = false;
+    struct Cand {
+        k: usize,
+        label: &'static str,
+        st: crash::DirState,
+        dropped: usize,
+        acked: Option<usize>,
+        inflight: Option<usize>,
+        growth_in_call: bool,
+        between_calls: bool,
+        plain: std::rc::Rc<crash::DirState>,
+    }
+    let mut cands: Vec<Cand> = Vec::new();
+    let cap: usize = c.cap.max(8);
     for k in 0..n {
         let r = &rec.recs[k];
         if matches!(r, Rec::Begin { .. }) {
@@ -102,8 +126,14 @@ fn check_with(c: &Case, all_points: bool) -> CheckResult {
             info.excluded += 1;
             continue;
         }
-        for (choice, label) in choices(&ps, (c.fault_seed as u64) << 20 ^ k as u64) {
+        let t1 = std::time::Instant::now();
+        let chs = choices(&ps, (c.fault_seed as u64) << 20 ^ k as u64);
+        t_choices += t1.elapsed();
+        let mut plain_rc: Option<std::rc::Rc<crash::DirState>> = None;
+        for (choice, label) in chs {
+            let t1 = std::time::Instant::now();
             let (st, dropped) = ps.after_power_loss(&choice);
+            t_apl += t1.elapsed();
             if dropped == 0 {
                 continue; // identical to the process-crash state (C02)
             }
@@ -111,10 +141,45 @@ fn check_with(c: &Case, all_points: bool) -> CheckResult {
             if !seen.insert(key) {
                 continue;
             }
+            let plain = plain_rc.get_or_insert_with(|| std::rc::Rc::new(plain.clone())).clone();
+            cands.push(Cand { k, label, st, dropped, acked, inflight, growth_in_call, between_calls, plain });
+        }
+    }
+    // a history with very many distinct fault states is thinned to the cap: every state between two
+    // calls is kept, the states inside calls are taken at an even stride
+    let total_cands = cands.len();
+    if total_cands > cap {
+        let inner = cands.iter().filter(|c| !c.between_calls).count();
+        let keep_inner = cap.saturating_sub(total_cands - inner).max(cap / 2);
+        let mut seen_inner = 0usize;
+        let mut kept_inner = 0usize;
+        cands.retain(|c| {
+            if c.between_calls {
+                return true;
+            }
+            seen_inner += 1;
+            // keep when the even-stride quota advances
+            let want = seen_inner * keep_inner / inner.max(1);
+            if want > kept_inner {
+                kept_inner += 1;
+                true
+            } else {
+                false
+            }
+        });
+        info.excluded += (total_cands - cands.len()) as u64;
+        classes.insert("fault_states_thinned_to_cap");
+    }
+    for cand in cands {
+        let Cand { k, label, st, dropped, acked, inflight, growth_in_call, between_calls: _, plain } = cand;
+        let r = &rec.recs[k];
+        {
             info.sub_evaluations += 1;
             classes.insert(label);
             let fails_before = fails.len();
+            let t1 = std::time::Instant::now();
             let got = crash::observe_state(&st)?;
+            t_obs += t1.elapsed();
             let where_ = format!(
                 "power loss after syscall #{k} ({}) {}, fault: {label} ({dropped} un-synced operations dropped or torn)",
                 r.kind_name(),
@@ -185,6 +250,9 @@ fn check_with(c: &Case, all_points: bool) -> CheckResult {
             }
         }
     }
+    if std::env::var_os("VERIF_TIMING").is_some() {
+        eprintln!("[timing] C03 case: total {:?} record {:?} choices {:?} after_power_loss {:?} observe {:?} sub_evals {}", t0.elapsed(), t_rec, t_choices, t_apl, t_obs, info.sub_evaluations);
+    }
     let mut cl: Vec<&'static str> = classes.into_iter().collect();
     cl.sort();
     info.classes = cl;
@@ -198,6 +266,8 @@ pub fn build(ctx: &Ctx) -> Vec<Box<dyn Arm>> {
     ctx.rule("the recorded syscall logs of C02-style histories, replayed under a power-loss model: per inode the image as of its last fsync/fdatasync plus any subset of the writes / truncates issued since (the last survivor optionally torn at one of the 512-byte sector boundaries of the file it crosses), and for the directory the entries as of the last directory fsync plus a prefix of the creates / renames / unlinks issued since; crash points = every point between two API calls (where every returned call is owed) and a third of the points inside calls; per point up to 10 fault choices (nothing un-synced survives; only directory operations; only data; everything but the last write of each file; the last write of a file torn at the first / second sector boundary; 2 generated subsets with tears); oracle: the file opens and shows the reference state after the returned calls or the one including the in-flight call; non-trivial = at least one un-synced operation dropped or torn and at least one call had returned");
     ctx.assume("fsync(fd) makes all earlier writes and the size of that inode durable; un-synced writes may persist in any subset; directory operations persist in order; rename is atomic; fsync of a newly created file also makes its directory entry durable, as on ext4 / xfs / btrfs (the ALICE / CrashMonkey model, weaker than ext4 data=ordered, so a pass is meaningful)");
     let t = ctx.tier;
+    let cap: usize = t.pick(80, 600);
+    ctx.rule("per history at most 80 (thorough 600) distinct fault states are opened: all states between two calls plus an even stride of the states inside calls; the number thinned away is reported as excluded_by_construction");
     ctx.rule("arm wrapped_log: a prefix of 5..8 put(8..20 KB)+commit cycles wraps the 64 KiB embedded log at least once (so stale record bytes lie behind the write head), in half of the cases inside begin_batch with two large puts that make the log grow while a put is pending; crash points are then explored only in the 2..4 puts / commits that follow (in a batch: from the growing put on; every point inside them, with the same fault choices, tears included)");
     let wrapped = move || {
         (
@@ -206,7 +276,7 @@ pub fn build(ctx: &Ctx) -> Vec<Box<dyn Arm>> {
             prop::collection::vec(prop_oneof![4 => (any::<u32>(), prop_oneof![600u32..2000, 2000u32..6000, 20_000u32..45_000]).prop_map(|(seed, len)| Op::Put(crate::hist::PutSpec::simple(crate::gen::Payload::Blob { seed, len, kind: crate::gen::BlobKind::Random }, 9))), 1 => Just(Op::Commit)], 2..=3),
             any::<u32>(),
         )
-            .prop_map(|(prefix, batch, tail, fault_seed)| {
+            .prop_map(move |(prefix, batch, tail, fault_seed)| {
                 let mut ops = Vec::new();
                 for (seed, len) in prefix {
                     ops.push(Op::Put(crate::hist::PutSpec::simple(crate::gen::Payload::Blob { seed, len, kind: crate::gen::BlobKind::Random }, 3)));
@@ -223,8 +293,8 @@ pub fn build(ctx: &Ctx) -> Vec<Box<dyn Arm>> {
                     ops.push(big(fault_seed ^ 0x55));
                 }
                 ops.extend(tail);
-                Case { hist: CrashCase { dim: 1, ops }, fault_seed, phase: 0, explore_from_op }
+                Case { hist: CrashCase { dim: 1, ops }, fault_seed, phase: 0, explore_from_op, cap }
             })
     };
-    vec![arm_with("wrapped_log", t.pick(6, 300), 8, t.pick(6, 40), wrapped, check_all_points), arm_with("power_loss", t.pick(12, 400), 8, t.pick(6, 40), move || (c02::case(t.pick(8, 30)), any::<u32>(), 0u8..3).prop_map(|(hist, fault_seed, phase)| Case { hist, fault_seed, phase, explore_from_op: 0 }), check)]
+    vec![arm_with("wrapped_log", t.pick(6, 300), 8, t.pick(6, 40), wrapped, check_all_points), arm_with("power_loss", t.pick(12, 400), 8, t.pick(6, 40), move || (c02::case(t.pick(8, 30)), any::<u32>(), 0u8..3).prop_map(move |(hist, fault_seed, phase)| Case { hist, fault_seed, phase, explore_from_op: 0, cap }), check)]
 }
